@@ -186,6 +186,22 @@ def sset(doc):
     return {k: sorted(set(v)) for k, v in strict_doc(doc).items() if v or k == ""}
 
 
+def assoc_hazard_activities(doc):
+    """activities (per container) that carry both a plain anonymous wasAssociatedWith and an anonymous one that needs a qualified node"""
+    out = set()
+    conts = [doc] + (list(doc.bundles) if doc.is_document() else [])
+    for c in conts:
+        plain, qual = set(), set()
+        for r in c.get_records():
+            if r.get_type() == PROV["Association"] and r.identifier is None:
+                fa = r.formal_attributes
+                act = fa[0][1]
+                needs_node = any(v is not None for (_a, v) in fa[2:]) or len(r.extra_attributes) > 0
+                (qual if needs_node else plain).add(act.uri if act is not None else None)
+        out |= (plain & qual)
+    return out
+
+
 def classify(doc, lost, gained, scenario):
     """signature of a known finding when every difference is explained by it, else None"""
     recs = [json.loads(x) for x in lost + gained]
@@ -198,11 +214,11 @@ def classify(doc, lost, gained, scenario):
         ids = {x["id"] for x in rest}
         if len(ids) == 1 and {x["kind"] for x in rest} <= {"Entity", "Agent"}:
             return scenario
-    if scenario == KNOWN["plain-and-qualified-same-subject"]:
-        if {x["kind"] for x in rest} == {"Association"} and all(x["id"] is None for x in rest):
-            acts = {v[1] for x in rest for (k, v) in x["attrs"] if k.endswith("#activity")}
-            if len(acts) == 1:
-                return scenario
+    hazard = assoc_hazard_activities(doc)
+    if hazard and {x["kind"] for x in rest} == {"Association"} and all(x["id"] is None for x in rest):
+        acts = {v[1] for x in rest for (k, v) in x["attrs"] if k.endswith("#activity")}
+        if acts <= hazard:
+            return KNOWN["plain-and-qualified-same-subject"]
     return None
 
 
